@@ -53,7 +53,7 @@ Definition precheck (q : request) : option result :=
 Inductive bkind :=
 | KMessage          (* {"type":"message","message":{"data":<non-empty>}} *)
 | KMessageNoData    (* type "message" without data: published, no client event *)
-| KBadJson          (* json.Unmarshal fails: 400 *)
+| KBadJson          (* json.Unmarshal fails, or the decoded request fails CheckValid: 400 *)
 | KUnsupported.     (* unknown type: 400 *)
 
 Section RoomAuth.
